@@ -52,6 +52,19 @@ Theorem C19_later_responses_delivered : forall seed s t w id m,
              exists r, cs s' t = CDone KReq w id r /\ res_msg r = Some (net_n s, m).
 Proof. intros; eapply delivery_from_idle; eassumption. Qed.
 
+(* ... also when the late response to an abandoned request (timed out, cancelled, or sent without a handler: nobody is
+   registered under its id) arrives in several chunks: the intermediate chunks and the final one are read and dropped
+   without holding the dispatcher up *)
+Theorem C19_later_responses_delivered_after_late_multichunk : forall seed s t w id m late,
+  reachable VNow seed s -> d s = DIdle -> cs s t = CWait KReq w id -> handlers s id = Some t -> m_id m = id ->
+  handlers s (m_id late) = None ->
+  exists s', run VNow ([EChunkC (m_id late); EChunkC (m_id late); ENet late; EPop] ++ [ENet m; EPop; ELock; EDeliver; ETake t]) s = Some s' /\
+             exists r, cs s' t = CDone KReq w id r /\ res_msg r = Some (S (net_n s), m).
+Proof. intros; eapply delivery_after_late_multichunk; eassumption. Qed.
+
+Theorem C19_intermediate_chunks_never_block : forall s id, d s = DIdle -> step VNow s (EChunkC id) = Some s.
+Proof. intros s id H. cbn. rewrite H. reflexivity. Qed.
+
 (* the dispatcher itself is never blocked by callers: its next step is always enabled, except at the receive gate
    while that gate is locked *)
 Theorem C19_dispatcher_progress : forall s,
@@ -163,6 +176,8 @@ Print Assumptions C19_refuted_slot_leak_before_fix.
 Print Assumptions C19_timer_enabled.
 Print Assumptions C19_ctx_enabled.
 Print Assumptions C19_later_responses_delivered.
+Print Assumptions C19_later_responses_delivered_after_late_multichunk.
+Print Assumptions C19_intermediate_chunks_never_block.
 Print Assumptions C19_dispatcher_progress.
 Print Assumptions C19_gate.
 Print Assumptions C19_gate_open_when_not_opening.
